@@ -36,6 +36,8 @@ ASSUMPTIONS = [
     "(avar stores both ends of a segment as F2Dot14: half a step on the output, half a step x slope from the input knot, half a step for "
     "the final rounding; HarfBuzz 12 works in 16.16 through avar: a quarter step x slope for its input, a quarter step for its arithmetic; the stored "
     "knots' quantisation is therefore visible even on a knot: observed 2.48 steps on a slope-2.8 segment of the unchanged tree)",
+    "GPOS pair values, mark anchors and MVAR metrics are additionally read through HarfBuzz at a font scale of 64 x upem (deltas are then rounded at 1/64 unit): "
+    "each stored value must reproduce the master's within 0.5 (its own delta's rounding) + the location/knot terms; an attachment offset combines two anchors (2 x 0.5)",
     "glyphs that are absent (empty) in a sparse master are not compared at that master; advances flagged with the documented 0xFFFF sentinel likewise",
     "avar2 documents (axis <mappings>) are exempt from the axis-map sub-claim and from master reproduction away from the default",
     "designspaces the builder rejects with a VarLibError subclass are 'precondition not met' (corpus only; generated masters are compatible by construction)",
@@ -506,6 +508,8 @@ def run_case(case, ctx):
                     ctx.violation({"kind": "master-reproduction", "what": "metric", "tag": tag},
                                   "metric %s at master %s: %d in the master, %d in the built font (tolerance %.2f)" % (tag, m["name"], mvl, vvl, tol),
                                   {"case": case["id"], "master": m["name"], "user": m["user_f"], "hb_norm": nV})
+        # sharp values: kerning, anchors and MVAR metrics at 1/64 unit (HarfBuzz rounds at the font scale)
+        _hires_values(case, ctx, m, vfb, nV, steps, tnames, vf, mfont, sparse, feats, gd_b, mv_b, worst)
         # shaping
         if m.get("layout", "GPOS" in mfont) and "GPOS" in vf and "GPOS" in mfont:
             for ti, t in enumerate(tnames):
@@ -539,6 +543,98 @@ def run_case(case, ctx):
                   "axes": [{k: a[k] for k in ("tag", "min", "default", "max", "map")} for a in axes],
                   "masters": [{"name": m["name"], "user": m.get("user_f"), "sparse": m.get("sparse")} for m in masters][:8],
                   "table_builders": dict(_cur["tables"]), "worst_observed": worst, "tables": sorted(V.tags)}
+
+
+HIRES = 64
+_hv = {}
+
+
+def _hires_view(data):
+    """a View whose font scale is 64 x upem: HarfBuzz then rounds variation deltas of GPOS values / anchors and MVAR
+    metrics at 1/64 unit instead of 1 unit (glyph advances stay rounded to whole units before scaling)"""
+    key = id(data)
+    if _hv.get("key") != key:
+        v = E.View(data)
+        v.h.font.scale = (v.h.upem * HIRES, v.h.upem * HIRES)
+        _hv.clear()
+        _hv.update({"key": key, "data": data, "view": v})
+    return _hv["view"]
+
+
+def _hires_quantities(view, font, tnames, feats):
+    """{key: value in font units}: per pair text the first glyph's (x_advance - own advance, x_offset, y_offset) - one
+    GPOS value each; per base+mark text (mark x_offset + base x_advance, mark y_offset) - two anchors each; metrics."""
+    h = view.h
+    q = {}
+    for t in tnames:
+        if len(t) != 2:
+            continue
+        cps = [_cp(font, n) for n in t]
+        sh = h.shape(cps, feats)
+        if len(sh) != 2:
+            continue
+        (g0, _, xa0, ya0, xo0, yo0), (g1, _, xa1, ya1, xo1, yo1) = sh
+        if t[1] in ("acutecomb", "gravecomb") or (xo1 or yo1):
+            q[("anchor-x",) + tuple(t)] = (xo1 + xa0) / HIRES
+            q[("anchor-y",) + tuple(t)] = yo1 / HIRES
+        else:
+            q[("kern-xadv",) + tuple(t)] = (xa0 - h.h_advance(g0)) / HIRES
+            q[("kern-xoff",) + tuple(t)] = xo0 / HIRES
+            q[("kern-yoff",) + tuple(t)] = yo0 / HIRES
+    for tag in E.METRIC_TAGS:
+        v = h.font.get_metric_position(tag)
+        if v is not None:
+            q[("metric", tag.name)] = v / HIRES
+    return q
+
+
+def _hires_values(case, ctx, m, vfb, nV, steps, tnames, vf, mfont, sparse, feats, gd_b, mv_b, worst):
+    VH = _hires_view(vfb)
+    MH = E.View(m["bytes"])
+    MH.h.font.scale = (MH.h.upem * HIRES, MH.h.upem * HIRES)
+    layout = m.get("layout", "GPOS" in mfont) and "GPOS" in vf and "GPOS" in mfont
+    names = [t for t in tnames if not any(n in sparse for n in t)] if layout else []
+    VH.at_norm(nV)
+    qv = _hires_quantities(VH, vf, names, feats)
+    qm = _hires_quantities(MH, mfont, names, feats)
+    # movement of the built font's values under the K-step location mismatch
+    sens = {k: 0.0 for k in qv}
+    for ai, k in enumerate(steps):
+        acc = {key: 0.0 for key in qv}
+        for sign in (-1, 1):
+            c = list(nV)
+            c[ai] = max(-1.0, min(1.0, c[ai] + sign * k / 16384.0))
+            VH.at_norm(c)
+            qp = _hires_quantities(VH, vf, names, feats)
+            for key, v in qv.items():
+                acc[key] = max(acc[key], abs(v - qp[key]) if key in qp else float("inf"))
+        for key in sens:
+            sens[key] += acc[key]
+    VH.at_norm(nV)
+    typo_ok = _typo_consistent(mfont) and _typo_consistent(vf)
+    for key, v in qv.items():
+        if key not in qm:
+            continue
+        w = qm[key]
+        if key[0] == "metric":
+            if key[1] in E.TYPO_OR_HHEA and not typo_ok:
+                continue
+            if key[1].startswith("UNDERLINE") and abs(w) >= 0x7FFF:
+                continue
+            nval, knot = 1, mv_b
+        elif key[0].startswith("anchor"):
+            nval, knot = 2, gd_b
+        else:
+            nval, knot = 1, gd_b
+        # each stored value: its own delta rounded once (0.5) + stored-knot term; 1/64 unit resolution on both fonts
+        tol = nval * (0.5 + knot) + sens[key] + 3.0 / HIRES
+        ctx.judged()
+        worst["hires"] = max(worst.get("hires", 0.0), abs(v - w))
+        if abs(v - w) > tol + 1e-9:
+            ctx.violation({"kind": "master-reproduction", "what": "value-at-1/64-unit", "value": key[0]},
+                          "%s at master %s: %.4f in the master, %.4f in the built font (tolerance %.3f = %d value(s) x 0.5 + location/knot terms)"
+                          % (" ".join(map(str, key)), m["name"], w, v, tol, nval),
+                          {"case": case["id"], "master": m["name"], "user": m["user_f"], "hb_norm": nV})
 
 
 def _exact_inmemory(case, ctx, vf, masters, axes, optimize):
